@@ -35,12 +35,27 @@ Example C10_roundtrip_nonvacuous :
 Proof. exact w_rich_nonvacuous. Qed.
 Print Assumptions C10_roundtrip_nonvacuous.
 
+(* what the reader returns is a fixed point: writing it again and reading gives it back exactly
+   (no drift over generations of files), and it is again a well-formed field *)
+Theorem C10_second_generation : forall (V : Type) (conv : V -> V) (f : fstate V),
+  wf_field f -> f_unit f <> Some none_marker ->
+  wf_field (canon conv f) /\
+  decode conv (NewFile (encode (canon conv f))) = OK (canon conv f).
+Proof. exact (fun V conv f W U => conj (canon_wf conv f W) (second_generation conv f W U)). Qed.
+Print Assumptions C10_second_generation.
+
 (* the file determines the state: different fields never share a file *)
 Theorem C10_file_determines_state : forall (V : Type) (conv : V -> V) (f1 f2 : fstate V),
   wf_field f1 -> wf_field f2 -> f_unit f1 <> Some none_marker -> f_unit f2 <> Some none_marker ->
   encode f1 = encode f2 -> canon conv f1 = canon conv f2.
 Proof. exact (@encode_injective). Qed.
 Print Assumptions C10_file_determines_state.
+
+(* the Boolean test the correspondence checker evaluates on every in-domain case implies the
+   hypothesis of the theorems above: the fields the library builds lie inside their domain *)
+Theorem C10_wf_test_sound : forall (V : Type) (f : fstate V), wf_fieldb f = true -> wf_field f.
+Proof. exact (@wf_fieldb_sound). Qed.
+Print Assumptions C10_wf_test_sound.
 
 (* integers up to 2^53 in magnitude survive the float64 conversion of the reader *)
 Theorem C10_int_payload_exact : forall z : Z, (Z.abs z <= 2 ^ 53)%Z -> round_f64 z = z.
